@@ -72,7 +72,7 @@ func (s *set[ElementType]) DeleteAll(other ReadableSet[ElementType]) (removedEle
 
 	removedElements = NewSet[ElementType]()
 	_ = other.ForEach(func(element ElementType) (err error) {
-		if s.Delete(element) {
+		if s.OrderedMap.Delete(element) {
 			removedElements.Add(element)
 		}
 
